@@ -68,7 +68,7 @@ def execute(case):
                     fid="C14:count", labels=labels)
     for idx, (f, d, p) in enumerate(zip(case["files"], datas, parsed)):
         want_name = f["name"][:8].ljust(8).encode("latin-1")
-        if p.name != want_name:
+        if p.name.upper() != want_name.upper():      # the letter case written is the tool's choice (README: MYPROG)
             return viol("file {}: name field {!r}, expected {!r}".format(idx, p.name, want_name),
                         fid="C14:name", labels=labels)
         for key, got, want in (("file type", p.ftype, f["ftype"]), ("data type", p.dtype, f["dtype"]),
